@@ -262,7 +262,9 @@ func evalInjection(h *hz.H, md protoreflect.MessageDescriptor, base []byte, base
 	}
 	wantD := enum.Canon(dd, false)
 	gd := enum.NewGo(md)
-	if p := hz.Catch(func() { err = proto.UnmarshalOptions{DiscardUnknown: true}.Unmarshal(append([]byte(nil), stream...), gd) }); p != nil || err != nil {
+	if p := hz.Catch(func() {
+		err = proto.UnmarshalOptions{DiscardUnknown: true}.Unmarshal(append([]byte(nil), stream...), gd)
+	}); p != nil || err != nil {
 		h.Violate(key("discard/decode-failed"), fmt.Sprintf("DiscardUnknown decode of %s failed: panic=%v err=%v", clip(stream), p, err), cc)
 		return
 	}
@@ -406,6 +408,54 @@ func setUnknownHistory(h *hz.H, md protoreflect.MessageDescriptor, base []byte, 
 	}
 }
 
+// mergeDiscardHistory: a message that already holds unknown fields (top level: u1; its first populated singular message
+// field: that type's first unknown record) receives a Merge decode with DiscardUnknown of a stream that carries unknown
+// records at both levels (u2; the nested type's second unknown record). DiscardUnknown drops what the stream brings and
+// nothing else: the unknown fields held before stay, as in the reference.
+func mergeDiscardHistory(h *hz.H, md protoreflect.MessageDescriptor, base []byte, baseLbl string, u1, u2 []byte) {
+	cc := c14case{Type: string(md.FullName()), Base: hex.EncodeToString(base), BaseLbl: baseLbl, Recs: []string{hex.EncodeToString(u1), hex.EncodeToString(u2)}, Mode: "merge-discard-after-unknowns"}
+	h.Eval(true, hz.HashBytes([]byte("C14mergediscard"), []byte(md.FullName()), base, u1, []byte{0xff}, u2))
+	run := func(whole proto.Message) (res string) {
+		if p := hz.Catch(func() {
+			if err := (proto.UnmarshalOptions{DiscardUnknown: true}).Unmarshal(append([]byte(nil), base...), whole); err != nil {
+				res = "base-error"
+				return
+			}
+			m := whole.ProtoReflect()
+			m.SetUnknown(append([]byte(nil), u1...))
+			stream := append([]byte(nil), u2...)
+			var sub protoreflect.Message
+			fs := m.Descriptor().Fields()
+			for i := 0; i < fs.Len() && sub == nil; i++ {
+				fd := fs.Get(i)
+				if fd.Message() != nil && !fd.IsList() && !fd.IsMap() && m.Has(fd) && enum.IsPulsar(fd.Message()) {
+					sub = m.Mutable(fd).Message()
+					nu := enum.UnknownAlphabet(fd.Message(), enum.Reduced)
+					sub.SetUnknown(append([]byte(nil), nu[0]...))
+					stream = protowire.AppendBytes(protowire.AppendTag(stream, protowire.Number(fd.Number()), protowire.BytesType), nu[1])
+				}
+			}
+			err := proto.UnmarshalOptions{Merge: true, DiscardUnknown: true}.Unmarshal(stream, whole)
+			enc, _ := proto.MarshalOptions{Deterministic: true}.Marshal(whole)
+			var nested []byte
+			if sub != nil {
+				nested = sub.GetUnknown()
+			}
+			res = fmt.Sprintf("err=%v unknown-at-top=%x unknown-in-nested=%x encoding=%x", err != nil, []byte(m.GetUnknown()), nested, enc)
+		}); p != nil {
+			res = fmt.Sprintf("PANIC %v", p)
+		}
+		return
+	}
+	rd := run(enum.NewDyn(md).Interface())
+	if strings.HasPrefix(rd, "PANIC") || rd == "base-error" {
+		return
+	}
+	if rf := run(enum.NewGo(md)); rf != rd {
+		h.Violate(fmt.Sprintf("C14/merge-discard-after-unknowns@%s", md.FullName()), fmt.Sprintf("%s (base %s) holding unknown fields %x (and its first message field its own), then Unmarshal{Merge, DiscardUnknown} of a stream with unknown records at both levels:\n generated %s\n reference %s", md.FullName(), baseLbl, u1, clips(rf), clips(rd)), cc)
+	}
+}
+
 func runC14(h *hz.H) {
 	if h.Replay != "" {
 		var cc c14case
@@ -419,6 +469,10 @@ func runC14(h *hz.H) {
 		if cc.Mode == "setunknown" {
 			u, _ := hex.DecodeString(cc.Recs[0])
 			setUnknownRoundTrip(h, md, base, cc.BaseLbl, u)
+		} else if cc.Mode == "merge-discard-after-unknowns" {
+			u1, _ := hex.DecodeString(cc.Recs[0])
+			u2, _ := hex.DecodeString(cc.Recs[1])
+			mergeDiscardHistory(h, md, base, cc.BaseLbl, u1, u2)
 		} else if strings.HasPrefix(cc.Mode, "setunknown-") {
 			u1, _ := hex.DecodeString(cc.Recs[0])
 			u2, _ := hex.DecodeString(cc.Recs[1])
@@ -565,6 +619,11 @@ func runC14(h *hz.H) {
 				for _, u2 := range append(append([][]byte(nil), ua...), nil) {
 					setUnknownHistory(h, bs.md, bs.bytes, bs.label, u1, u2, false)
 					setUnknownHistory(h, bs.md, bs.bytes, bs.label, u1, u2, true)
+				}
+			}
+			for _, u1 := range ua[:3] {
+				for _, u2 := range ua[:3] {
+					mergeDiscardHistory(h, bs.md, bs.bytes, bs.label, u1, u2)
 				}
 			}
 		}
